@@ -8,6 +8,7 @@
   (agent srvsafe), with `rdataNames` taken from `QV.Writer.rdataNames`.
 -/
 import QV.Proofs.WriterRecords
+import QV.Proofs.WriterBudget
 
 namespace QV.Writer
 open QV QV.Wire
@@ -659,5 +660,399 @@ theorem addQuestion_full (qn : WName) (qt qc : Nat) (s : State) (hI : I s) (hwf 
           intro _ _ hqd q hq'
           exact hq0 hqd q hq'
 
+
+/-! ## `finish` -/
+
+/-- a record of a type without name components, written without a hint into enough room, succeeds -/
+theorem addRr_nameless_ok (owner : WName) (ty cls ttl : Nat) (rd : List UInt8) (s : State)
+    (hw : WInv s) (hwf : owner.WF) (hct : componentTypes cls ty = some [])
+    (hroom : s.cursor + rrLen owner rd ≤ s.available) :
+    ∃ s', addRr .none owner ty cls ttl rd s = (.ok (), s') ∧ WInv s' ∧ Ext s s' ∧
+      s'.cursor ≤ s.cursor + rrLen owner rd := by
+  obtain ⟨hnp, hok⟩ := sp_addRr (track := s.hv = some []) (s0 := s) (names := []) .none owner ty cls ttl rd hwf s
+    ⟨[], _, none, recSt_init hw, trivial⟩
+  have hot := onlyTrunc_addRr_nameless owner ty cls ttl rd hct s
+  obtain ⟨hb1, hb2⟩ := bud_addRr .none owner ty cls ttl rd s
+  cases har : addRr .none owner ty cls ttl rd s with
+  | mk r s' =>
+    rw [har] at hnp hot hb1
+    cases r with
+    | panic => exact absurd rfl hnp
+    | err e =>
+      have := hot e rfl
+      subst this
+      have := hb1 rfl
+      omega
+    | ok u =>
+      obtain ⟨p, hrec⟩ := hok u s' har
+      exact ⟨s', rfl, hrec.winv, hrec.ext, (hb2 u s' har).1⟩
+
+theorem root_wf : WName.root.WF := by
+  constructor
+  · intro l hl; cases hl
+  · decide
+
+theorem componentTypes_opt (cls : Nat) : componentTypes cls T_OPT = some [] :=
+  componentTypes_unknown cls T_OPT (by decide)
+
+theorem componentTypes_tsig (cls : Nat) : componentTypes cls T_TSIG = some [] :=
+  componentTypes_unknown cls T_TSIG (by decide)
+
+
+theorem write_hdr_ok (pos : Nat) (d : List UInt8) (hp : pos + d.length ≤ 12) (s : State) (hI : I s) :
+    write pos d s = (.ok (), { s with octets := writeAt s.octets pos d }) ∧
+    I { s with octets := writeAt s.octets pos d } := by
+  have hs := size12 hI.inv
+  have h2 := (safe_write_hdr pos d hp s hI).2.1
+  unfold write at h2 ⊢
+  rw [if_pos (by omega)] at h2 ⊢
+  exact ⟨rfl, h2⟩
+
+theorem finishCounts_spec (a b c d : Nat) (s : State) (hI : I s) :
+    ∃ o, finishCounts a b c d s = (.ok (), { s with octets := o }) ∧ I { s with octets := o } ∧
+      o.size = s.octets.size := by
+  unfold finishCounts
+  simp only [M.bind_apply]
+  obtain ⟨e1, i1⟩ := write_hdr_ok Gen.QDCOUNT_START (u16be a) (by show _ + 2 ≤ 12; decide) s hI
+  rw [e1]
+  simp only []
+  obtain ⟨e2, i2⟩ := write_hdr_ok Gen.ANCOUNT_START (u16be b) (by show _ + 2 ≤ 12; decide) _ i1
+  rw [e2]
+  simp only []
+  obtain ⟨e3, i3⟩ := write_hdr_ok Gen.NSCOUNT_START (u16be c) (by show _ + 2 ≤ 12; decide) _ i2
+  rw [e3]
+  simp only []
+  obtain ⟨e4, i4⟩ := write_hdr_ok Gen.ARCOUNT_START (u16be d) (by show _ + 2 ≤ 12; decide) _ i3
+  rw [e4]
+  exact ⟨_, rfl, i4, by simp⟩
+
+
+/-- raising `available` (undoing a reservation) keeps the name invariants -/
+theorem winv_raise {s : State} (h : WInv s) (k : Nat) (hk : s.available + k ≤ s.octets.size)
+    (ts : Option Tsig) : WInv { s with available := s.available + k, tsig := ts } :=
+  ⟨h.c12, by have := h.cur_av; show s.cursor ≤ s.available + k; omega, hk, h.g12, h.labs, h.qn, h.ow, h.rd⟩
+
+theorem finishOpt_spec (s : State) (hw : WInv s) (k : Nat)
+    (hroom : ∀ e, s.edns = some e → s.available + Gen.OPT_RECORD_SIZE + k ≤ s.octets.size)
+    (hk : s.available + k ≤ s.octets.size) :
+    ∃ s', finishOpt s.edns s = (.ok (), s') ∧ WInv s' ∧ s'.available + k ≤ s'.octets.size ∧
+      s'.tsig = s.tsig := by
+  unfold finishOpt
+  cases he : s.edns with
+  | none => exact ⟨s, rfl, hw, hk, rfl⟩
+  | some e =>
+    simp only [M.bind_apply, M.modify_apply]
+    have h11 : Gen.OPT_RECORD_SIZE = 11 := rfl
+    have hr := hroom e he
+    have w1 : WInv { s with available := s.available + Gen.OPT_RECORD_SIZE } := by
+      have := winv_raise hw Gen.OPT_RECORD_SIZE (by omega) s.tsig
+      exact this
+    have hlen : rrLen WName.root [] = 11 := by decide
+    obtain ⟨s', h1, h2, h3, h4⟩ := addRr_nameless_ok WName.root T_OPT e.payload
+      ((e.upper * 16777216) % 4294967296) [] _ w1 root_wf (componentTypes_opt _)
+      (by show s.cursor + rrLen WName.root [] ≤ s.available + Gen.OPT_RECORD_SIZE; have := hw.cur_av; omega)
+    unfold unwrap
+    rw [h1]
+    refine ⟨s', rfl, h2, ?_, h3.tsig⟩
+    rw [h3.available, h3.size]
+    show s.available + Gen.OPT_RECORD_SIZE + k ≤ s.octets.size
+    exact hr
+
+theorem tsigRdata_length (rr : TsigRr) (alg : WName) (mac : List UInt8) (h6 : rr.timeSigned.length = 6)
+    (h6' : rr.serverTime.length = 6) :
+    (tsigRdata rr alg mac).length =
+      alg.wire.length + 16 + mac.length + (if rr.error = XR_BADTIME then 6 else 0) := by
+  unfold tsigRdata
+  have : ∀ n, (u16be n).length = 2 := fun _ => rfl
+  by_cases hb : rr.error = XR_BADTIME
+  · simp [hb, this, h6, h6']; omega
+  · simp [hb, this, h6]; omega
+
+theorem finishTsig_tail (s : State) (hw : WInv s) (ts : Tsig) (mac : Option (List UInt8))
+    (hkey : ts.rr.keyName.WF) (ht6 : ts.rr.timeSigned.length = 6) (hs6 : ts.rr.serverTime.length = 6)
+    (hroom : s.available + ts.reservedLen ≤ s.octets.size)
+    (hlen : (mac.getD []).length + (tsigAlgName ts.mode).wire.length + 26 +
+      (if ts.rr.error = XR_BADTIME then 6 else 0) + ts.rr.keyName.wire.length ≤ ts.reservedLen) :
+    ∃ len s', (do
+      M.modify fun s => { s with tsig := none, available := s.available + ts.reservedLen }
+      unwrap (addRr .none ts.rr.keyName T_TSIG QC_ANY (ttlFrom 0)
+        (tsigRdata ts.rr (tsigAlgName ts.mode) (mac.getD [])))
+      let len ← M.gets (·.cursor)
+      pure (len, mac) : M (Nat × Option (List UInt8))) s = (.ok (len, mac), s') := by
+  simp only [M.bind_apply, M.modify_apply]
+  have w3 : WInv { s with tsig := none, available := s.available + ts.reservedLen } :=
+    winv_raise hw ts.reservedLen hroom none
+  have hrl := tsigRdata_length ts.rr (tsigAlgName ts.mode) (mac.getD []) ht6 hs6
+  obtain ⟨s', h1, _, _, _⟩ := addRr_nameless_ok ts.rr.keyName T_TSIG QC_ANY (ttlFrom 0)
+    (tsigRdata ts.rr (tsigAlgName ts.mode) (mac.getD [])) _ w3 hkey (componentTypes_tsig _)
+    (by
+      show s.cursor + rrLen ts.rr.keyName _ ≤ s.available + ts.reservedLen
+      unfold rrLen
+      rw [hrl]
+      have := hw.cur_av
+      omega)
+  unfold unwrap
+  rw [h1]
+  exact ⟨_, _, rfl⟩
+
+theorem finishTsig_spec (macFn : Tsig → List UInt8 → List UInt8) (hmac : MacLenOK macFn) (s : State)
+    (hw : WInv s) (ts : Tsig) (hts : s.tsig = some ts)
+    (hok : ts.reservedLen = reservedLenOf ts.mode ts.rr ∧ ts.rr.keyName.WF ∧
+      (tsigAlgName ts.mode).WF ∧ ts.rr.timeSigned.length = 6 ∧ ts.rr.serverTime.length = 6)
+    (hroom : s.available + ts.reservedLen ≤ s.octets.size) :
+    ∃ r s', finishTsig macFn s.tsig s = (.ok r, s') := by
+  obtain ⟨hres, hkey, _, ht6, hs6⟩ := hok
+  unfold finishTsig
+  rw [hts]
+  simp only [M.bind_apply, M.gets_apply]
+  have hcs : ¬ s.cursor > s.octets.size := by have := hw.cur_av; have := hw.av_size; omega
+  rw [if_neg hcs]
+  simp only []
+  have hm := hmac ts (s.octets.extract 0 s.cursor).toList
+  cases hmode : ts.mode with
+  | request a k =>
+    rw [hmode] at hm
+    simp only []
+    obtain ⟨len, s', h⟩ := finishTsig_tail s hw ts (some (macFn ts (s.octets.extract 0 s.cursor).toList))
+      hkey ht6 hs6 hroom (by
+        rw [hres, hmode]
+        simp only [reservedLenOf, signedLen, unsignedLen, tsigAlgName, Option.getD_some] at hm ⊢
+        omega)
+    rw [hmode] at h
+    exact ⟨_, _, h⟩
+  | response a m k =>
+    rw [hmode] at hm
+    simp only []
+    obtain ⟨len, s', h⟩ := finishTsig_tail s hw ts (some (macFn ts (s.octets.extract 0 s.cursor).toList))
+      hkey ht6 hs6 hroom (by
+        rw [hres, hmode]
+        simp only [reservedLenOf, signedLen, unsignedLen, tsigAlgName, Option.getD_some] at hm ⊢
+        omega)
+    rw [hmode] at h
+    exact ⟨_, _, h⟩
+  | subsequent a m k =>
+    rw [hmode] at hm
+    simp only []
+    obtain ⟨len, s', h⟩ := finishTsig_tail s hw ts (some (macFn ts (s.octets.extract 0 s.cursor).toList))
+      hkey ht6 hs6 hroom (by
+        rw [hres, hmode]
+        simp only [reservedLenOf, signedLen, unsignedLen, tsigAlgName, Option.getD_some] at hm ⊢
+        omega)
+    rw [hmode] at h
+    exact ⟨_, _, h⟩
+  | unsigned n =>
+    simp only []
+    obtain ⟨len, s', h⟩ := finishTsig_tail s hw ts none hkey ht6 hs6 hroom (by
+        rw [hres, hmode]
+        simp only [reservedLenOf, unsignedLen, tsigAlgName, Option.getD_none, List.length_nil]
+        omega)
+    rw [hmode] at h
+    exact ⟨_, _, h⟩
+
+
+/-- **`finish` succeeds** from any state satisfying the invariant, provided the signing function
+    returns a MAC that fits the reservation (the two `unwrap`s are covered by the reservations
+    made by `set_edns` / `set_tsig`) -/
+theorem finishWithMac_ok (macFn : Tsig → List UInt8 → List UInt8) (hmac : MacLenOK macFn) (s : State)
+    (hI : I s) : ∃ r s', finishWithMac macFn s = (.ok r, s') := by
+  unfold finishWithMac
+  simp only [M.bind_apply, M.gets_apply]
+  obtain ⟨o, hc, hIA, hosz⟩ := finishCounts_spec s.qdcount s.ancount s.nscount s.arcount s hI
+  rw [hc]
+  simp only []
+  have hres := inv_reserved' hI.inv
+  have h2 := hI.inv.av_lim; have h3 := hI.inv.lim_size
+  have h11 : Gen.OPT_RECORD_SIZE = 11 := rfl
+  obtain ⟨s1, hf1, hw1, hroom1, hts1⟩ := finishOpt_spec { s with octets := o } hIA.winv (tsigReserved s.tsig)
+    (by
+      intro e he
+      show s.available + Gen.OPT_RECORD_SIZE + tsigReserved s.tsig ≤ o.size
+      have he' : s.edns = some e := he
+      rw [he'] at hres
+      simp at hres
+      omega)
+    (by
+      show s.available + tsigReserved s.tsig ≤ o.size
+      cases he : s.edns with
+      | none => rw [he] at hres; simp at hres; omega
+      | some e => rw [he] at hres; simp at hres; omega)
+  have hf1' : finishOpt s.edns { s with octets := o } = (.ok (), s1) := hf1
+  rw [hf1']
+  simp only []
+  have hts1' : s1.tsig = s.tsig := hts1
+  cases hts : s.tsig with
+  | none =>
+    unfold finishTsig
+    simp only [M.bind_apply, M.gets_apply, M.pure_apply]
+    exact ⟨_, _, rfl⟩
+  | some ts =>
+    have := finishTsig_spec macFn hmac s1 hw1 ts (by rw [hts1', hts]) (hI.tsig ts hts)
+      (by rw [hts] at hroom1; exact hroom1)
+    rw [hts1', hts] at this
+    exact this
+
+theorem finish_ok (macFn : Tsig → List UInt8 → List UInt8) (hmac : MacLenOK macFn) (s : State)
+    (hI : I s) : ∃ m mac, finish s macFn = .ok (m, mac) := by
+  obtain ⟨r, s', h⟩ := finishWithMac_ok macFn hmac s hI
+  unfold finish
+  rw [h]
+  exact ⟨_, _, rfl⟩
+
+
+/-! ## the instance -/
+
+theorem i_hv (s : State) (v : Option HV) (h : I s) : I { s with hv := v } :=
+  ⟨inv_hv h.inv v, ⟨h.winv.c12, h.winv.cur_av, h.winv.av_size, h.winv.g12, h.winv.labs, h.winv.qn,
+    h.winv.ow, h.winv.rd⟩, ⟨h.qinv.labs, h.qinv.qn⟩, h.tsig⟩
+
+theorem new_i (buf : Bytes) (limit : Nat) (s : State) (h : Writer.new buf limit = .ok s) : I s := by
+  have hinv := new_inv buf limit s h
+  unfold Writer.new at h
+  dsimp only at h
+  split at h
+  · cases h
+  · have hs := Out.ok.inj h
+    subst hs
+    refine ⟨hinv, ⟨hinv.hdr, hinv.cur_av, Nat.le_trans hinv.av_lim hinv.lim_size, ?_, ?_, ?_, ?_, ?_⟩,
+      ⟨?_, ?_⟩, ?_⟩
+    · intro g hg; cases hg
+    · intro g hg; cases hg
+    · intro p hp; cases hp
+    · intro p hp; cases hp
+    · intro p hp; cases hp
+    · intro g hg; cases hg
+    · intro p hp; cases hp
+    · intro ts hts; cases hts
+
+theorem clearRrs_i (s : State) (h : I s) : I (clearRrs s).2 := by
+  have hinv := (total_clearRrs s).2 h.inv
+  have hrr := h.inv.rr_hi
+  simp only [clearRrs, M.modify_apply] at hinv ⊢
+  -- recorded label starts below `rr_start` are stored below `rr_start`, in terms of the kept set
+  have hG : ∀ x, (GL s x ∧ x < s.rrStart) → x ∈ s.gLabels.filter (· < s.rrStart) := by
+    intro x ⟨h1, h2⟩
+    simp only [List.mem_filter, decide_eq_true_eq]
+    exact ⟨h1, h2⟩
+  have conv : ∀ p ls, NameAt (GL s) s.octets s.rrStart p ls →
+      NameAt (fun x => x ∈ s.gLabels.filter (· < s.rrStart)) s.octets s.rrStart p ls := by
+    intro p ls hn
+    exact nameAt_frame (lo := 0) (nameAt_restrict hn) hG (fun _ _ => Nat.zero_le _) (fun _ _ _ => rfl)
+      (Nat.le_refl _)
+  have hlabs : ∀ g ∈ s.gLabels.filter (· < s.rrStart), ∃ ls,
+      NameAt (fun x => x ∈ s.gLabels.filter (· < s.rrStart)) s.octets s.rrStart g ls := by
+    intro g hg
+    simp only [List.mem_filter, decide_eq_true_eq] at hg
+    obtain ⟨ls, hl⟩ := h.qinv.labs g hg.1 hg.2
+    exact ⟨ls, conv _ _ hl⟩
+  have hqn : ∀ p, s.qname = some p →
+      PriorOK (fun x => x ∈ s.gLabels.filter (· < s.rrStart)) s.octets s.rrStart p := by
+    intro p hp
+    obtain ⟨ls, hl, hlen⟩ := h.qinv.qn p hp
+    exact ⟨ls, conv _ _ hl, hlen⟩
+  refine ⟨hinv, ⟨h.inv.rr_lo, by show s.rrStart ≤ s.available; have := h.inv.cur_av; omega,
+    h.winv.av_size, ?_, hlabs, ?_, (fun p hp => by cases hp), (fun p hp => by cases hp)⟩, ⟨?_, hqn⟩, h.tsig⟩
+  · intro g hg
+    simp only [List.mem_filter] at hg
+    exact h.winv.g12 g hg.1
+  · intro p hp
+    exact ⟨(h.winv.qn p hp).1, (h.winv.qn p hp).2.1, hqn p hp⟩
+  · intro g hg _
+    exact hlabs g hg
+
+
+theorem call_safe (c : Call) (s : State) (hI : I s) (hp : c.Pre Den s) :
+    (c.run s).1 ≠ .panic ∧ I (c.run s).2 ∧ Mono Den s (c.run s).2 := by
+  cases c with
+  | setId v => exact safe_write_hdr Gen.ID_START (u16be v) (by show _ + 2 ≤ 12; decide) s hI
+  | setBit b m v => exact safe_setHdr b _ hp s hI
+  | setOpcode v => exact safe_setHdr Gen.OPCODE_BYTE _ (by decide) s hI
+  | setRcode v => exact safe_setRcode v s hI
+  | setExtendedRcode v => exact safe_setExtendedRcode v s hI
+  | setLimit v => exact safe_setLimit v s hI
+  | setEdns p => exact safe_setEdns p s hI
+  | setTsig m rr => exact safe_setTsig m rr s hI hp
+  | addRr sec h o ty cls ttl rd =>
+    obtain ⟨a, b, c, _⟩ := addRrOp_full sec h o ty cls ttl rd s hI hp.1 ((hintOK_iff s h o).mp hp.2)
+    exact ⟨a, b, c⟩
+  | addRrset sec h o ty cls ttl rds =>
+    obtain ⟨a, b, c, _⟩ := addRrsetOp_full sec h o ty cls ttl rds s hI hp.1 ((hintOK_iff s h o).mp hp.2)
+    exact ⟨a, b, c⟩
+
+/-- **the interface is met** -/
+def writerSafe : WriterSafe where
+  I := Writer.I
+  Den := Writer.Den
+  I_hv := i_hv
+  Den_hv := fun _ _ _ _ h => h
+  new_I := new_i
+  call := call_safe
+  addQuestion := by
+    intro qn qt qc s hI hwf
+    obtain ⟨a, b, c, d⟩ := addQuestion_full qn qt qc s hI hwf
+    exact ⟨a, b, c, d⟩
+  addRr_post := by
+    intro sec hint owner ty cls ttl rd s hI hwf hh hok
+    obtain ⟨_, _, _, post⟩ := addRrOp_full sec hint owner ty cls ttl rd s hI hwf ((hintOK_iff s hint owner).mp hh)
+    obtain ⟨s2, p, n, hrec, heq⟩ := post hok
+    rw [heq]
+    obtain ⟨f1, f2, f3, f4, f5, f6⟩ := setCount_fields sec n s2
+    constructor
+    · intro q hq
+      rw [f2] at hq
+      exact (den_setCount _ _ _ _ _).mpr (recSt_ownerHint hrec q hq)
+    · intro m hm q hq
+      rw [f3] at hq
+      exact (den_setCount _ _ _ _ _).mpr (hrec.rd m hm q hq)
+  addRrset_post := by
+    intro sec hint owner ty cls ttl rds s hI hwf hh hne hok
+    obtain ⟨_, _, _, post⟩ := addRrsetOp_full sec hint owner ty cls ttl rds s hI hwf ((hintOK_iff s hint owner).mp hh)
+    obtain ⟨s2, loc, p, on, n, hrec, hon, heq⟩ := post hok
+    rw [heq]
+    obtain ⟨f1, f2, f3, f4, f5, f6⟩ := setCount_fields sec n s2
+    have hon' := hon hne
+    subst hon'
+    constructor
+    · intro q hq
+      rw [f2] at hq
+      exact (den_setCount _ _ _ _ _).mpr (recSt_ownerHint hrec q hq)
+    · intro hv0 v hv i q hq
+      rw [f4] at hv
+      obtain ⟨_, h2⟩ := hrec.hv hv0 v hv
+      obtain ⟨m, hm, hd⟩ := h2 i q hq
+      exact ⟨m, hm, (den_setCount _ _ _ _ _).mpr hd⟩
+  clearRrs_I := clearRrs_i
+  finish := by
+    intro s macFn hI hmac
+    obtain ⟨m, mac, h⟩ := finish_ok macFn hmac s hI
+    rw [h]; simp
+
+
+/-! ### extras for the request handler -/
+
+/-- `finish` never returns an error either -/
+theorem finish_not_err (s : State) (macFn : Tsig → List UInt8 → List UInt8) (hI : I s)
+    (hmac : MacLenOK macFn) (e : WriterErr) : finish s macFn ≠ .err e := by
+  obtain ⟨m, mac, h⟩ := finish_ok macFn hmac s hI
+  rw [h]; simp
+
+/-- with TSIG configured the additional count already includes the TSIG record -/
+theorem arcount_of_tsig (s : State) (hI : I s) (ht : s.tsig.isSome) : 1 ≤ s.arcount ∧ s.arcount ≤ 65535 := by
+  have := hI.inv.ar_ge
+  have h2 := hI.inv.ar
+  rw [ht] at this
+  constructor
+  · split at this <;> omega
+  · exact h2
+
+/-- the component lists the request handler relies on (class IN = 1) -/
+theorem componentTypes_of_ns : componentTypes 1 2 = some [.compressibleName] := by decide
+theorem componentTypes_of_md : componentTypes 1 3 = some [.compressibleName] := by decide
+theorem componentTypes_of_mf : componentTypes 1 4 = some [.compressibleName] := by decide
+theorem componentTypes_of_cname : componentTypes 1 5 = some [.compressibleName] := by decide
+theorem componentTypes_of_mb : componentTypes 1 7 = some [.compressibleName] := by decide
+theorem componentTypes_of_mx : componentTypes 1 15 = some [.fixedLen 2, .compressibleName] := by decide
+theorem componentTypes_of_srv : componentTypes 1 33 = some [.fixedLen 6, .uncompressibleName] := by decide
+theorem componentTypes_of_a : componentTypes 1 1 = some [] := by decide
+theorem componentTypes_of_aaaa : componentTypes 1 28 = some [] := by decide
 
 end QV.Writer
